@@ -1,25 +1,29 @@
 #!/bin/bash
-# usage: tools/seedmatrix.sh [seed-dir-name ...]   -- for every archived seeded change: apply it to a scratch copy of /repo, run the check of its
+# usage: [JOBS=3] tools/seedmatrix.sh [seed-dir-name ...]   -- for every archived seeded change: apply it to a scratch copy of /repo, run the check of its
 # property against that copy (VERIF_REPO / VERIF_OUT: /repo and /verif/evidence are not touched), record which obligations fail -> seeded/MATRIX.json
+# (JOBS seeds at a time, each in its own scratch directory)
 cd /verif
 work=$(mktemp -d /tmp/seedmatrix.XXXXXX)
 names=("$@"); if [ ${#names[@]} -eq 0 ]; then names=($(ls seeded | grep -v MATRIX)); fi   # seeds marked "canary": false are included: their exit code is recorded as it is
-for n in "${names[@]}"; do
-  d=seeded/$n; prop=${n%%-*}
-  rm -rf $work/repo $work/out; mkdir -p $work/out; cp -r /repo $work/repo; rm -rf $work/repo/.git
-  if ! (cd $work/repo && patch -p1 -s --no-backup-if-mismatch < /verif/$d/patch.diff > $work/patch.log 2>&1); then
-     echo "{\"seed\": \"$n\", \"property\": \"$prop\", \"applies\": false}" > $work/res.$n.json; continue; fi
-  VERIF_REPO=$work/repo VERIF_OUT=$work/out ./check $prop > $work/chk.out 2>&1; code=$?
-  python3 - "$n" "$prop" "$code" "$work" <<'PY' > $work/res.$n.json
+one() {
+  n=$1; work=$2; d=seeded/$n; prop=${n%%-*}; w=$work/$n
+  mkdir -p $w/out; cp -r /repo $w/repo; rm -rf $w/repo/.git
+  if ! (cd $w/repo && patch -p1 -s --no-backup-if-mismatch < /verif/$d/patch.diff > $w/patch.log 2>&1); then
+     echo "{\"seed\": \"$n\", \"property\": \"$prop\", \"applies\": false}" > $work/res.$n.json; rm -rf $w; return; fi
+  VERIF_REPO=$w/repo VERIF_OUT=$w/out ./check $prop > $w/chk.out 2>&1; code=$?
+  python3 - "$n" "$prop" "$code" "$w" <<'PY' > $work/res.$n.json
 import json,sys,glob,os
-n,prop,code,work=sys.argv[1:5]
+n,prop,code,w=sys.argv[1:5]
 obl=[]
-for f in glob.glob(f"{work}/out/replays/{prop}/*.json"):
+for f in glob.glob(f"{w}/out/replays/{prop}/*.json"):
     d=json.load(open(f)); obl.append({"obligation":d["obligation"],"reproduced_natively":bool(d.get("reproduced_on_real_code"))})
 print(json.dumps({"seed":n,"property":prop,"applies":True,"check_exit":int(code),"violations":sorted(obl,key=lambda o:o["obligation"]),
-                  "last_line":open(f"{work}/chk.out").read().strip().splitlines()[-1][:200] if os.path.getsize(f"{work}/chk.out") else ""}))
+                  "last_line":open(f"{w}/chk.out").read().strip().splitlines()[-1][:200] if os.path.getsize(f"{w}/chk.out") else ""}))
 PY
-done
+  rm -rf $w
+}
+export -f one
+printf '%s\n' "${names[@]}" | xargs -P ${JOBS:-3} -I{} bash -c 'one {} '"$work"
 python3 - "$work" <<'PY'
 import json,glob,sys,os
 work=sys.argv[1]
